@@ -244,25 +244,61 @@ def run(ctx) -> None:
         rep.check("C02.R4", name in an.ComponentContext.methods, an.ComponentContext.methods.get(name), None, f"ComponentContext overrides {name}", f"ComponentContext does not override {name}: the call lands on the component context's own (empty, short-lived) tables")
 
     # ------------------------------------------------------------------ R5 parent selection
-    if parent_attr is None:
+    from ..dataflow import ReachingDefs
+    from ..facts import Facts
+
+    prop = an.Context.methods.get("parent")
+    pattr = None
+    if prop is not None:
+        for r_ in walk_own(prop.node):
+            if isinstance(r_, ast.Return) and self_attr(r_.value):
+                pattr = self_attr(r_.value)
+    pattr = pattr or parent_attr
+    pparam = init.params[1] if len(init.params) > 1 else None
+    ird = ReachingDefs(a, init)
+    ifacts = Facts(a, init, ird)
+    # definitions (of a local or of self.<parent attr>) that choose between the explicit argument and the current context
+    sel = []
+    for n in icfg.live_nodes():
+        if n.kind == "stmt" and isinstance(n.ast, (ast.Assign, ast.AnnAssign)) and getattr(n.ast, "value", None) is not None:
+            v = n.ast.value
+            txt = ast.unparse(v)
+            uses_var = "_current_context" in txt or ("current_context" in txt and isinstance(v, (ast.Call, ast.BoolOp)))
+            uses_param = pparam in names_in(v)
+            if uses_var or (uses_param and isinstance(v, ast.Name)):
+                tgt = (n.ast.targets if isinstance(n.ast, ast.Assign) else [n.ast.target])[0]
+                sel.append((n, v, dotted(tgt) or ast.unparse(tgt), uses_var, uses_param))
+    var_defs = [x for x in sel if x[3]]
+    if pattr is None or not var_defs:
         rep.violate("C02.R5", init, init.node, "the parent is not chosen as `explicit argument or current context`")
     else:
-        assign = [n for n in walk_own(init.node) if isinstance(n, ast.Assign) and any(self_attr(t) == parent_attr for t in n.targets) and isinstance(n.value, ast.BoolOp)]
-        v = assign[0].value
-        first_is_param = isinstance(v.values[0], ast.Name) and v.values[0].id == init.params[1]
-        second_is_var = isinstance(v.values[1], ast.Call) and call_name(v.values[1]) == "get" and "_current_context" in ast.unparse(v.values[1]) or (isinstance(v.values[1], ast.Call) and "current" in ast.unparse(v.values[1]))
-        rep.check("C02.R5", isinstance(v.op, ast.Or) and first_is_param and bool(second_is_var), init, assign[0], "parent = explicit argument, else the context current at creation", f"parent is chosen as `{ast.unparse(v)}`")
-        loops = [w for w in walk_own(init.node) if isinstance(w, (ast.While, ast.If)) and "isinstance" in ast.unparse(w.test) and an.ComponentContext.name in ast.unparse(w.test) and parent_attr in ast.unparse(w.test)]
-        if not loops:
+        for n, v, tgt, uses_var, uses_param in var_defs:
+            if isinstance(v, ast.BoolOp) and isinstance(v.op, ast.Or):
+                first_is_param = isinstance(v.values[0], ast.Name) and v.values[0].id == pparam
+                rep.check("C02.R5", first_is_param and len(v.values) == 2, init, n.ast, "parent = explicit argument, else the context current at creation", f"parent is chosen as `{ast.unparse(v)}`: the explicit argument does not take precedence")
+            else:
+                # `if parent: P = parent else: P = <current>` (any spelling): the current context is
+                # consulted only when no explicit parent was given, and the explicit one is used otherwise
+                no_explicit = ifacts.implied(n.id, ast.Name(id=pparam, ctx=ast.Load()), False) or ifacts.implied(n.id, ast.parse(f"{pparam} is None", mode="eval").body, True)
+                explicit_defs = [x for x in sel if x[4] and isinstance(x[1], ast.Name) and x[2] == tgt]
+                rep.check("C02.R5", no_explicit and bool(explicit_defs), init, n.ast, "the current context is used only when no explicit parent was given", "the current context is consulted although an explicit parent was given (or the explicit parent is never used)")
+        # the chosen value ends up in the parent attribute
+        pvars = {x[2] for x in var_defs}
+        # component contexts are skipped
+        skip = None
+        for t in icfg.live_nodes():
+            if t.kind == "test" and "isinstance" in ast.unparse(t.ast) and an.ComponentContext.name in ast.unparse(t.ast) and any(pv in ast.unparse(t.ast) for pv in pvars | {f"self.{pattr}"}):
+                skip = t
+        if skip is None:
             rep.violate("C02.R5", init, init.node, "component contexts are not skipped when choosing the parent (they exit sooner than the contexts created under them)")
         else:
-            lp = loops[0]
-            reassign = [b for b in ast.walk(lp) if isinstance(b, ast.Assign) and any(self_attr(t) == parent_attr for t in b.targets)]
-            ok = bool(reassign) and isinstance(reassign[0].value, ast.Attribute) and reassign[0].value.attr == an.wrapped_attr
-            rep.check("C02.R5", ok, init, lp, "component contexts are replaced by the real context they wrap", "the component-context skip does not move to the wrapped context")
-            tnode = [t for t in icfg.live_nodes() if t.kind == "test" and t.ast is lp.test]
-            copies = [n for n in icfg.live_nodes() if n.kind == "stmt" and isinstance(n.ast, (ast.Assign, ast.AnnAssign)) and any(self_attr(t) in tables for t in (n.ast.targets if isinstance(n.ast, ast.Assign) else [n.ast.target])) and classify_table_init(n.ast.value, "") != "fresh"]
-            rep.check("C02.R5", bool(tnode) and all(icfg.dominates(tnode[0].id, c.id) for c in copies), init, lp, "the skip happens before the tables are copied", "the tables are copied from the component context before it is skipped")
+            body = icfg.reach([d for d, lab in skip.succ if lab == "t"], avoid=[skip.id])
+            re_ = [icfg.nodes[i] for i in body if icfg.nodes[i].kind == "stmt" and isinstance(icfg.nodes[i].ast, ast.Assign) and isinstance(icfg.nodes[i].ast.value, ast.Attribute) and icfg.nodes[i].ast.value.attr == an.wrapped_attr]
+            rep.check("C02.R5", bool(re_), init, skip.ast, "component contexts are replaced by the real context they wrap", "the component-context skip does not move to the wrapped context")
+            copies = [n for n in icfg.live_nodes() if n.kind in ("stmt", "for_iter") and icfg.own_ast(n) is not None and any(isinstance(x, ast.Attribute) and x.attr in tables and dotted(x.value) != "self" for x in iter_own(icfg.own_ast(n)))]
+            rep.check("C02.R5", bool(copies) and all(icfg.dominates(skip.id, c.id) for c in copies), init, skip.ast, "the skip happens before the parent's tables are read", "the tables are copied from the component context before it is skipped")
+        stores = [n for n in icfg.live_nodes() if n.kind == "stmt" and isinstance(n.ast, (ast.Assign, ast.AnnAssign)) and any(self_attr(t) == pattr for t in (n.ast.targets if isinstance(n.ast, ast.Assign) else [n.ast.target]))]
+        rep.check("C02.R5", bool(stores) and icfg.all_paths_pass(icfg.entry, [icfg.exit], [x.id for x in stores], edge_ok=lambda s_, d_, lab: lab not in ("e", "h")), init, stores[0].ast if stores else init.node, f"self.{pattr} is set on every path through the constructor", "some path leaves the parent link unset")
 
     # ------------------------------------------------------------------ R6 generated values not inherited
     c04.rule_r2(ctx, an, rule="C02.R6")
